@@ -223,6 +223,76 @@ def c10_cases(tier):
             yield case, oracle
 
 
+C06_SCHEMA = """
+schema { query: Query }
+interface Named { name: String }
+type Dog implements Named { name: String barks: Boolean owner: Person }
+type Cat implements Named { name: String lives: Int }
+type Person { name: String age: Int pet: Pet named: Named kind: Kind }
+type Rock { weight: Int }
+union Pet = Dog | Cat
+enum Kind { A B }
+type Query { me: Person pet: Pet named: Named n: Int rock: Rock }
+"""
+C06_SUB_SCHEMA = C06_SCHEMA.replace("schema { query: Query }", "schema { query: Query subscription: Sub }") + " type Sub { a: Int b: Int }"
+
+
+def c06_cases(tier):
+    """the rule catalogue: every entry is an operation the schema cannot answer; generation must not succeed"""
+    cat = [
+        # 1 unknown field (object, nested, interface, in fragment, in inline fragment)
+        ("k1 unknown field on the root object", C06_SCHEMA, "query Q { nope }"),
+        ("k1 unknown field on a nested object", C06_SCHEMA, "query Q { me { nope } }"),
+        ("k1 unknown field on an interface", C06_SCHEMA, "query Q { named { __typename nope } }"),
+        ("k1 unknown field inside a named fragment", C06_SCHEMA, "fragment F on Person { nope } query Q { me { ...F } }"),
+        ("k1 unknown field inside an inline fragment", C06_SCHEMA, "query Q { pet { __typename ... on Dog { nope } } }"),
+        ("k1 a field selected directly on a union", C06_SCHEMA, "query Q { pet { __typename name } }"),
+        # 2 sub-selection on a leaf / none on a composite
+        ("k2a sub-selection on a scalar field", C06_SCHEMA, "query Q { n { x } }"),
+        ("k2a sub-selection on an enum field", C06_SCHEMA, "query Q { me { kind { x } } }"),
+        ("k2b no sub-selection on an interface field", C06_SCHEMA, "query Q { named }"),
+        ("k2b no sub-selection on a union field", C06_SCHEMA, "query Q { pet }"),
+        ("k2b-object no sub-selection on an object field", C06_SCHEMA, "query Q { me }"),
+        ("k2b-object no sub-selection on a nested object field", C06_SCHEMA, "query Q { pet { __typename ... on Dog { owner } } }"),
+        # 3 undefined fragment
+        ("k3 spread of an undefined fragment", C06_SCHEMA, "query Q { me { ...Missing } }"),
+        ("k3 spread of an undefined fragment on a union", C06_SCHEMA, "query Q { pet { __typename ...Missing } }"),
+        # 4 type conditions
+        ("k4a inline fragment on an unknown type", C06_SCHEMA, "query Q { pet { __typename ... on Nope { name } } }"),
+        ("k4a fragment definition on an unknown type", C06_SCHEMA, "fragment F on Nope { name } query Q { me { name } }"),
+        ("k4b inline fragment on a non-member of the union", C06_SCHEMA, "query Q { pet { __typename ... on Person { name } } }"),
+        ("k4b inline fragment on a non-implementor of the interface", C06_SCHEMA, "query Q { named { __typename ... on Rock { weight } } }"),
+        ("k4b spread of a fragment on a non-member of the union", C06_SCHEMA, "fragment F on Rock { weight } query Q { pet { __typename ...F } }"),
+        ("k4b-object inline fragment on an unrelated object inside an object", C06_SCHEMA, "query Q { me { name ... on Rock { weight } } }"),
+        ("k4b-object spread of a fragment on an unrelated object inside an object", C06_SCHEMA, "fragment F on Rock { weight } query Q { me { name ...F } }"),
+        # 5 __typename
+        ("k5 interface field without __typename", C06_SCHEMA, "query Q { named { name } }"),
+        ("k5 union field without __typename", C06_SCHEMA, "query Q { pet { ... on Dog { name } } }"),
+        ("k5 fragment on an interface without __typename", C06_SCHEMA, "fragment F on Named { name } query Q { named { __typename ...F } }"),
+        ("k5 nested interface field without __typename", C06_SCHEMA, "query Q { me { named { name } } }"),
+        ("k5 __typename only inside a spread fragment on one implementor", C06_SCHEMA, "fragment D on Dog { __typename barks } query Q { named { name ...D } }"),
+        ("k5 __typename only inside an inline fragment on one member", C06_SCHEMA, "query Q { pet { ... on Dog { __typename name } } }"),
+        # 6 operations
+        ("k6 two root fields in a subscription", C06_SUB_SCHEMA, "subscription S { a b }"),
+        ("k7 anonymous selection set", C06_SCHEMA, "{ n }"),
+        ("k7 anonymous query", C06_SCHEMA, "query { n }"),
+        ("k8 mutation without a mutation root", C06_SCHEMA, "mutation M { n }"),
+        ("k8 subscription without a subscription root", C06_SCHEMA, "subscription S { n }"),
+    ]
+    for (what, schema, q) in cat:
+        case = {"schema": schema, "query": q, "options": {"mode": "cli"}}
+
+        def oracle(res, what=what):
+            if res.get("timeout"):
+                return None
+            if res["exit"] != 0 or not res["out"]:
+                return None   # died: no code was generated (C17 covers crashes)
+            if res["out"].get("ok"):
+                return "code was generated for an invalid operation (%s)" % what
+            return None
+        yield case, oracle
+
+
 def c08_cases(tier):
     os.makedirs(os.path.join(WORK, "replay-files"), exist_ok=True)
     d = os.path.join(WORK, "replay-files")
@@ -334,7 +404,7 @@ def c15_cases(tier):
             yield case, oracle
 
 
-FAMILIES = {"C15": c15_cases, "C13": c13_cases, "C03": c13_cases, "C14": c14_cases, "C16": c16_cases, "C17": c17_cases, "C11": c11_cases, "C08": c08_cases, "C10": c10_cases}
+FAMILIES = {"C15": c15_cases, "C13": c13_cases, "C03": c13_cases, "C14": c14_cases, "C16": c16_cases, "C17": c17_cases, "C11": c11_cases, "C08": c08_cases, "C10": c10_cases, "C06": c06_cases}
 
 
 def search_witness(pid, obligation, tier):
